@@ -8,7 +8,14 @@ replay file re-runs exactly that input.  For each case the implementation's retu
     source text)                                                     -> a difference alone is a `correspondence` break,
 and the caller's frames are compared before / after.  CDR1/CDR2 loops on the oracle side are looked up by the harness
 with tidytcells (the lookup is the contract); what is checked is that the code uses THAT ROW's allele, the right
-loop and the right weights."""
+loop and the right weights.
+
+A case may carry `alive`: other metric objects constructed before / after the metric under test and kept alive, and a
+list of calls (of those objects, and of the metric under test itself on other argument combinations) made BEFORE the
+judged call.  The statement is about every metric object for every pair of tables, so the value may depend neither on
+which other metric objects exist nor on what was evaluated earlier.  Tables may carry extra columns whose names are
+those of the loop columns the implementation adds to its private copy (CDR1A .. CDR2B, CDR1X, CDR2X) with arbitrary
+content: CDR1 / CDR2 are those of the row's V allele whatever such columns hold."""
 import copy, itertools
 import numpy as np
 import pandas as pd
@@ -31,6 +38,10 @@ W5 = ('alpha_weight', 'beta_weight') + CDRW
 SMALL_PRIMES = [2, 3, 5, 7]                 # insertion / deletion / substitution (the model's DP runs on unary nat)
 PRIMES = [11, 13, 17, 19, 23, 29, 31]       # chain and loop weights
 INDEX_KINDS = ['default', 'shifted', 'permuted', 'duplicated', 'string']
+# names the implementation uses for the loop columns of its private expanded copy (and of the lookup's temporary frame)
+LOOP_COLS = ['CDR1A', 'CDR2A', 'CDR1B', 'CDR2B']
+INTERNAL_COLS = LOOP_COLS + ['CDR1X', 'CDR2X']
+STEP_HOWS = ['same', 'swap', 'selfA', 'selfB', 'pdistA', 'pdistB']
 _GENES = {}
 
 
@@ -146,7 +157,8 @@ def same_object(a, b):
     """caller's object after the call equals the snapshot taken before"""
     if isinstance(a, pd.DataFrame):
         return (isinstance(b, pd.DataFrame) and list(a.columns) == list(b.columns) and a.index.equals(b.index)
-                and type(a.index) is type(b.index) and list(a.dtypes.astype(str)) == list(b.dtypes.astype(str)) and a.equals(b))
+                and type(a.index) is type(b.index) and list(a.dtypes.astype(str)) == list(b.dtypes.astype(str)) and a.equals(b)
+                and dict(a.attrs) == dict(b.attrs))
     if isinstance(a, pd.Series):
         return isinstance(b, pd.Series) and a.equals(b)
     if isinstance(a, np.ndarray):
@@ -232,18 +244,44 @@ def judge(ctx, case, outs, tbl):
     """outs: oracle answers for requests_for(case); tbl: (model, spec) is-table verdicts of the objects.
     Returns the list of (kind, what) problems found on this case."""
     problems = []
-    metric = call_impl(construct, case)
-    if metric[0] != 'ok':
-        return [('property', 'constructing %s(%s %s) raised %s' % (case['cls'], case.get('pos', []), case.get('kwargs', {}), metric[1]))]
-    metric = metric[1]
+    alive = case.get('alive') or {}
+    keep = []                       # every metric object of this case stays alive until the case has been judged
+    metric = None
+    for c in list(alive.get('before', [])) + [case] + list(alive.get('after', [])):
+        m = call_impl(construct, c)
+        if m[0] != 'ok':
+            return [('property', 'constructing %s(%s) raised %s' % (c['cls'], fmt_args(c), m[1]))]
+        if c is case:
+            metric = m[1]
+        else:
+            keep.append(m[1])
     objs = [make_obj(case['A'])] + ([make_obj(case['B'])] if case['kind'] == 'cdist' else [])
     before = [snapshot(o) for o in objs]
+    # calls made before the judged one: [who, how]; who = -1 the metric under test, else a companion (before + after order)
+    for who, how in alive.get('steps', []):
+        m = metric if who < 0 else (keep[who] if who < len(keep) else None)
+        if m is None:
+            continue
+        a, b = objs[0], objs[-1]
+        if how == 'same':
+            call_impl(m.calc_cdist_matrix, a, b) if case['kind'] == 'cdist' else call_impl(m.calc_pdist_vector, a)
+        elif how == 'swap':
+            call_impl(m.calc_cdist_matrix, b, a)
+        elif how == 'selfA':
+            call_impl(m.calc_cdist_matrix, a, a)
+        elif how == 'selfB':
+            call_impl(m.calc_cdist_matrix, b, b)
+        elif how == 'pdistA':
+            call_impl(m.calc_pdist_vector, a)
+        elif how == 'pdistB':
+            call_impl(m.calc_pdist_vector, b)
     if case['kind'] == 'cdist':
         res = call_impl(metric.calc_cdist_matrix, objs[0], objs[1])
         call = '%s(%s).calc_cdist_matrix' % (case['cls'], fmt_args(case))
     else:
         res = call_impl(metric.calc_pdist_vector, objs[0])
         call = '%s(%s).calc_pdist_vector' % (case['cls'], fmt_args(case))
+    call += describe_alive(case)
     for k, (o, b) in enumerate(zip(objs, before)):
         if not same_object(b, o):
             problems.append(('property', '%s modified the caller\'s %s: columns %s -> %s' %
@@ -290,6 +328,20 @@ def fmt_args(case):
     return ', '.join([str(v) for v in case.get('pos', [])] + ['%s=%s' % kv for kv in case.get('kwargs', {}).items()])
 
 
+def describe_alive(case):
+    alive = case.get('alive') or {}
+    out = []
+    comp = list(alive.get('before', [])) + list(alive.get('after', []))
+    if alive.get('before'):
+        out.append('constructed earlier and still alive: ' + ', '.join('%s(%s)' % (c['cls'], fmt_args(c)) for c in alive['before']))
+    if alive.get('after'):
+        out.append('constructed after it, before the call: ' + ', '.join('%s(%s)' % (c['cls'], fmt_args(c)) for c in alive['after']))
+    if alive.get('steps'):
+        names = lambda w: 'this metric' if w < 0 else ('%s(%s)' % (comp[w]['cls'], fmt_args(comp[w])) if w < len(comp) else '?')
+        out.append('evaluated before this call: ' + ', '.join('%s:%s' % (names(w), h) for w, h in alive['steps']))
+    return (' [' + '; '.join(out) + ']') if out else ''
+
+
 def short(x, n=300):
     s = str(x)
     return s if len(s) <= n else s[:n] + '...'
@@ -303,7 +355,9 @@ def describe_objs(case):
             if 'nontable' in oj:
                 out.append('%s=<%s>' % (k, oj['nontable']))
             else:
-                out.append('%s=frame(columns=%s, index=%s, rows=%s)' % (k, oj['columns'], short(oj['index'], 60), short([r[1:] for r in wire_rows(oj)], 400)))
+                own = {c: oj['data'][c] for c in oj['columns'] if c in INTERNAL_COLS}
+                out.append('%s=frame(columns=%s, index=%s, rows=%s%s)' % (k, oj['columns'], short(oj['index'], 60), short([r[1:] for r in wire_rows(oj)], 400),
+                                                                        (', caller\'s own loop-named columns %s' % short(own, 300)) if own else ''))
     return '; '.join(out)
 
 
@@ -340,6 +394,18 @@ def shrink(ctx, case, kind):
     """cheap: try every single (anchor row, comparison row) pair / row pair, keep the first that still fails the same way"""
     if any('nontable' in case[k] for k in ('A', 'B') if k in case):
         return case
+    if case.get('alive'):
+        # does it fail without any other metric object / earlier call?  else: with one companion and no earlier call? with the companions only?
+        al = case['alive']
+        variants = [{k: v for k, v in case.items() if k != 'alive'}]
+        variants += [dict(case, alive=dict(before=[c], after=[], steps=[])) for c in al.get('before', [])]
+        variants += [dict(case, alive=dict(before=[], after=[c], steps=[])) for c in al.get('after', [])]
+        variants += [dict(case, alive=dict(before=[], after=[], steps=[[-1, h]])) for w, h in al.get('steps', []) if w < 0]
+        variants += [dict(case, alive=dict(before=al.get('before', []), after=al.get('after', []), steps=[]))]
+        for c, probs, _ in run_cases(ctx, variants):
+            if any(k == kind for k, _ in probs):
+                case = c
+                break
     na = len(wire_rows(case['A']))
     cands = []
     if case['kind'] == 'cdist':
@@ -420,10 +486,9 @@ def gen_frame(rng, av, bv, special, n, kind, pool, plain=False):
             data['clone_count'] = [rng.randint(1, 50) for _ in range(n)]
             data['Epitope'] = [rng.choice(['GILGFVFTL', 'NLVPMVATV']) for _ in range(n)]
             cols += ['clone_count', 'Epitope']
-        if rng.random() < 0.12:
-            data['CDR1A'] = ['ZZZZ'] * n          # stale loop columns: the loops are those of the row's V allele
-            data['CDR2B'] = ['QQ'] * n
-            cols += ['CDR1A', 'CDR2B']
+        if rng.random() < 0.3:
+            # the caller's own columns named like the implementation's loop columns: the loops are those of the row's V allele
+            add_loop_named_columns(rng, data, cols, n, av, bv)
         if rng.random() < 0.3:
             rng.shuffle(cols)
         if rng.random() < 0.12 and n > 0:
@@ -431,6 +496,63 @@ def gen_frame(rng, av, bv, special, n, kind, pool, plain=False):
         elif rng.random() < 0.1 and n > 0:
             dtypes = {'CDR3A': 'string', 'CDR3B': 'string'}
     return dict(columns=cols, index=gen_index(rng, kind, n), data={c: data[c] for c in cols}, dtypes=dtypes)
+
+
+def junk_column(rng, name, data, n, av, bv):
+    """content of a caller's column that merely has the NAME of an internal loop column"""
+    r = rng.random()
+    if r < 0.15:
+        return [rng.choice(['ZZZZ', 'QQ', ''])] * n
+    if r < 0.35:
+        return [''.join(rng.choice(gens.AA + '.') for _ in range(rng.randint(0, 12))) for _ in range(n)]
+    if r < 0.6:
+        # loops of some other allele (an annotation made before the V call was corrected), possibly IMGT-gapped
+        out = []
+        for _ in range(n):
+            l = loops_of(rng.choice(av if rng.random() < 0.5 else bv))[rng.randint(0, 1)]
+            out.append(l[:len(l) // 2] + '....' + l[len(l) // 2:] if rng.random() < 0.4 else l)
+        return out
+    if r < 0.8:
+        # the row's own loops under the wrong name: other chain and / or other loop
+        V = data['TRBV'] if (name.endswith('A') or rng.random() < 0.3) else data['TRAV']
+        k = 1 if '1' in name else 0
+        return [loops_of(v)[k] for v in V]
+    if r < 0.9:
+        return [None] * n
+    return [rng.randint(0, 9) for _ in range(n)]
+
+
+def add_loop_named_columns(rng, data, cols, n, av, bv, names=None):
+    if names is None:
+        names = list(LOOP_COLS) if rng.random() < 0.5 else rng.sample(INTERNAL_COLS, rng.randint(1, len(INTERNAL_COLS)))
+        rng.shuffle(names)
+    for c in names:
+        data[c] = junk_column(rng, c, data, n, av, bv)
+    if rng.random() < 0.3:
+        cols[:0] = names            # in front of the TCR columns
+    else:
+        cols += names
+
+
+def gen_ctor(rng, case):
+    """another metric object to keep alive next to the one under test: same class with other weights, or another class"""
+    cls = case['cls'] if rng.random() < 0.5 else rng.choice(list(CLASSES))
+    return dict(cls=cls, **gen_weights(rng, cls, rng.choice(['weighted', 'weighted', 'unit', 'default'])))
+
+
+def add_alive(rng, case, p=0.7):
+    """several metric objects constructed up front, evaluated in an interleaved order, the one under test judged last"""
+    if rng.random() >= p:
+        return case
+    before = [gen_ctor(rng, case) for _ in range(rng.choice([0, 0, 1, 2]))]
+    after = [gen_ctor(rng, case) for _ in range(rng.choice([0, 1, 1, 2]))]
+    steps = []
+    for _ in range(rng.choice([0, 0, 1, 2, 3])):
+        who = rng.randint(-1, len(before) + len(after) - 1)
+        hows = STEP_HOWS if case['kind'] == 'cdist' else ['same', 'selfA', 'pdistA']
+        steps.append([who, rng.choice(hows)])
+    case['alive'] = dict(before=before, after=after, steps=steps)
+    return case
 
 
 def gen_weights(rng, cls, mode):
@@ -467,7 +589,10 @@ def run(ctx):
                 'non-BMP text) x constructor weights that are pairwise distinct primes (or the unit scorer path, or all defaults) x '
                 'index kinds {default, shifted, permuted, duplicated, string} chosen independently for anchors and comparisons x '
                 'extra / stale / shuffled columns, category / string dtypes; plus the full product class x anchor index x comparison '
-                'index x scorer path on one fixed table pair; plus non-table objects in every argument position. non-trivial := '
+                'index x scorer path on one fixed table pair; plus non-table objects in every argument position. Tables may carry the '
+                'caller\'s own columns named CDR1A / CDR2A / CDR1B / CDR2B / CDR1X / CDR2X (any subset, any content); 50-70 %% of the cases '
+                'construct 1-4 further metric objects (same class with other weights, or another class) before / after the one under test, '
+                'keep them alive, and evaluate them or the metric under test on other argument combinations before the judged call. non-trivial := '
                 'both tables have >= 2 rows, some entry is non-zero, and the weights in scope are pairwise distinct primes')
     av, bv = allele_pools()
     ctx.rule = ctx.rule % (len(av) + len(bv))
@@ -504,9 +629,22 @@ def run(ctx):
                     A = dict(fixedA, index=gen_index(rng, ka, 3))
                     B = dict(fixedB, index=gen_index(rng, kb, 4))
                     w = gen_weights(rng, cls, mode)
-                    cases.append(dict(kind='cdist', cls=cls, A=A, B=B, tag=('product', ka, kb, mode), **w))
+                    cases.append(add_alive(rng, dict(kind='cdist', cls=cls, A=A, B=B, tag=('product', ka, kb, mode), **w), p=0.5))
                 A = dict(fixedA, index=gen_index(rng, ka, 3))
-                cases.append(dict(kind='pdist', cls=cls, A=A, tag=('product', ka, '-', 'weighted'), **gen_weights(rng, cls, 'weighted')))
+                cases.append(add_alive(rng, dict(kind='pdist', cls=cls, A=A, tag=('product', ka, '-', 'weighted'), **gen_weights(rng, cls, 'weighted')), p=0.5))
+    # (a2) class x {cdist anchors, cdist comparisons, cdist both, pdist} x which loop-named columns the caller's table carries
+    for cls in CLASSES:
+        for names in (LOOP_COLS, ['CDR1A', 'CDR2A'], ['CDR1B', 'CDR2B'], ['CDR1A', 'CDR1B'], ['CDR2A', 'CDR2B'], INTERNAL_COLS):
+            fr = []
+            for f in (fixedA, fixedB):
+                data, cols = {c: list(v) for c, v in f['data'].items()}, list(f['columns'])
+                add_loop_named_columns(rng, data, cols, len(data['TRAV']), av, bv, names=list(names))
+                fr.append(dict(f, columns=cols, data=data))
+            where = rng.choice(['anchors', 'comparisons', 'both']) if ctx.quick and names is not LOOP_COLS else None
+            for wh, A, B in (('anchors', fr[0], fixedB), ('comparisons', fixedA, fr[1]), ('both', fr[0], fr[1])):
+                if where in (None, wh):
+                    cases.append(dict(kind='cdist', cls=cls, A=A, B=B, tag=('product', 'default', 'default', 'weighted'), **gen_weights(rng, cls, 'weighted')))
+            cases.append(dict(kind='pdist', cls=cls, A=fr[0], tag=('product', 'default', '-', 'weighted'), **gen_weights(rng, cls, 'weighted')))
     ctx.exhaustive = True
     # (b) random tables
     nrand = 400 if ctx.quick else 4000
@@ -521,15 +659,15 @@ def run(ctx):
         A = gen_frame(rng, av, bv, special, na, ka, pool)
         B = gen_frame(rng, av, bv, special, nb, kb, pool)
         w = gen_weights(rng, cls, mode)
-        cases.append(dict(kind='cdist', cls=cls, A=A, B=B, tag=('random', ka, kb, mode), **w))
+        cases.append(add_alive(rng, dict(kind='cdist', cls=cls, A=A, B=B, tag=('random', ka, kb, mode), **w)))
         if t % 2 == 0:
-            cases.append(dict(kind='pdist', cls=cls, A=A, tag=('random', ka, '-', mode), **w))
+            cases.append(add_alive(rng, dict(kind='pdist', cls=cls, A=A, tag=('random', ka, '-', mode), **w)))
         if t % 10 == 0 and na > 0:
             # a table holding only the columns of one chain, for the metrics of that chain's CDR3
             c1 = rng.choice(['AlphaCdr3Levenshtein', 'BetaCdr3Levenshtein'])
             keep = ['CDR3A', 'TRAV'] if c1.startswith('Alpha') else ['TRBV', 'CDR3B']
             A1 = dict(A, columns=keep, data={c: A['data'][c] for c in keep}, dtypes={})
-            cases.append(dict(kind='cdist', cls=c1, A=A1, B=B, tag=('one-chain table', ka, kb, mode), **gen_weights(rng, c1, mode)))
+            cases.append(add_alive(rng, dict(kind='cdist', cls=c1, A=A1, B=B, tag=('one-chain table', ka, kb, mode), **gen_weights(rng, c1, mode))))
     # (c) inputs that are not TCR tables, in every argument position
     good = gen_frame(rng, av, bv, special, 3, 'permuted', pool, plain=True)
     for bad in nontable_objects(rng):
@@ -551,6 +689,13 @@ def run(ctx):
         cs, ls, w3, w5 = cfg_of(case)
         ctx.count('class=' + case['cls'])
         ctx.count('kind=' + tag[0])
+        if case.get('alive'):
+            al = case['alive']
+            ctx.count('other metric objects alive=%d' % (len(al['before']) + len(al['after'])))
+            ctx.count('earlier calls=%d' % len(al['steps']))
+        for k in ('A', 'B'):
+            if k in case and 'nontable' not in case[k] and any(c in INTERNAL_COLS for c in case[k]['columns']):
+                ctx.count('table with caller\'s loop-named columns: ' + ('all four' if set(LOOP_COLS) <= set(case[k]['columns']) else 'some'))
         if tag[0] in ('product', 'random', 'one-chain table'):
             ctx.count('anchor index=' + tag[1])
             ctx.count('scorer=' + tag[3])
@@ -601,9 +746,14 @@ def additivity(ctx, rng, av, bv, special):
         for paired, alpha, beta, extra in ((tm.Cdr3Levenshtein, tm.AlphaCdr3Levenshtein, tm.BetaCdr3Levenshtein, {}),
                                            (tm.CdrLevenshtein, tm.AlphaCdrLevenshtein, tm.BetaCdrLevenshtein, cd)):
             fa, fb = make_frame(A), make_frame(B)
-            p = call_impl(lambda: paired(alpha_weight=ws[3], beta_weight=ws[4], **w3, **extra).calc_cdist_matrix(fa, fb))
-            a = call_impl(lambda: alpha(**w3, **extra).calc_cdist_matrix(fa, fb))
-            b = call_impl(lambda: beta(**w3, **extra).calc_cdist_matrix(fa, fb))
+            # the three metric objects exist side by side (constructed in a random order) and are evaluated in a random order
+            made, got = {}, {}
+            ctors = dict(p=lambda: paired(alpha_weight=ws[3], beta_weight=ws[4], **w3, **extra), a=lambda: alpha(**w3, **extra), b=lambda: beta(**w3, **extra))
+            for k in rng.sample('pab', 3):
+                made[k] = call_impl(ctors[k])
+            for k in rng.sample('pab', 3):
+                got[k] = call_impl(made[k][1].calc_cdist_matrix, fa, fb) if made[k][0] == 'ok' else made[k]
+            p, a, b = got['p'], got['a'], got['b']
             ctx.case(nontrivial_key=('additive', paired.__name__, t))
             ok = p[0] == a[0] == b[0] == 'ok'
             if ok:
